@@ -13,6 +13,8 @@ pub mod c23;
 pub mod c22;
 #[cfg(kani)]
 pub mod c07;
+#[cfg(kani)]
+pub mod c06;
 
 // written by `./check <id> --replay <file>` (Kani concrete playback of a recorded counterexample)
 #[cfg(all(kani, test))]
